@@ -125,3 +125,27 @@ def _basename(L, name):
     if not isinstance(name, str):
         raise Unsupported('basename of a symbolic path')
     return os.path.basename(name)
+
+
+@model('numpy.genfromtxt')
+def _genfromtxt(L, fname, skip_header=0, names=None, usecols=None, dtype=None, **kw):
+    """a text table of symbolic length read into a structured array: file content ('table', n, {column name: Arr}) - the
+    numbers are those written in the file (assumed: the string layer)"""
+    files = L.ctx.ghost.setdefault('files', {})
+    v = files.get(fname)
+    if not (isinstance(v, tuple) and v[0] == 'table'):
+        raise Unsupported('genfromtxt of a file without table content')
+    from .core import Arr
+    n, cols = v[1], v[2]
+    a = Arr((n,), lambda ix: None, {k: c.dtype for k, c in cols.items()}, label='table')
+    a.fields = {k: c.snapshot() for k, c in cols.items()}
+    return a
+
+
+@model('numpy.atleast_1d')
+def _atleast_1d(L, a):
+    a = L.as_arr(a)
+    if a.ndim == 0:
+        from .core import Arr
+        return Arr((1,), lambda ix: a.f(()), a.dtype)
+    return a
